@@ -45,6 +45,81 @@ pub fn gen_random_tape(rng: &mut Rng64, n: usize) -> Vec<u8> {
     }
 }
 
+/// Honest verification of one Prio3 report in which every aggregator's verify state is encoded and
+/// decoded (as a server persisting it would) before it is used to decode the peers' verifier shares
+/// and the verifier message and to finish.
+fn verify_with_persisted_state<T: Kinded, P: Xof<32>>(
+    vdaf: &Prio3<T, P, 32>,
+    key: &[u8; 32],
+    vctx: &[u8],
+    nonce: &[u8; 16],
+    ps: &<Prio3<T, P, 32> as prio::vdaf::Vdaf>::PublicShare,
+    shares: &[<Prio3<T, P, 32> as prio::vdaf::Vdaf>::InputShare],
+) -> Result<(), (String, String)>
+where
+    T::Field: ZField,
+{
+    use prio::codec::ParameterizedDecode;
+    use prio::vdaf::prio3::{Prio3VerifierMessage, Prio3VerifierShare, Prio3VerifyState};
+    use prio::vdaf::{Aggregator, VerifyTransition};
+    let mut states = vec![];
+    let mut vshares = vec![];
+    for (i, sh) in shares.iter().enumerate() {
+        let (st, vs) = match catch(|| vdaf.verify_init(key, vctx, i, &(), nonce, ps, sh)) {
+            Ok(Ok(x)) => x,
+            Ok(Err(e)) => return Err(("verify_init".into(), e.to_string())),
+            Err(pi) => return Err((format!("verify_init-panic|{}", pi.class()), pi.message)),
+        };
+        let sb = st.get_encoded().map_err(|e| ("state-encode".to_string(), e.to_string()))?;
+        if st.encoded_len() != Some(sb.len()) {
+            return Err(("state-encoded_len".into(), format!("{:?} vs {}", st.encoded_len(), sb.len())));
+        }
+        let st2 = match catch(|| Prio3VerifyState::<T::Field, 32>::get_decoded_with_param(&(vdaf, i), &sb)) {
+            Ok(Ok(x)) => x,
+            Ok(Err(e)) => return Err(("state-decode".into(), e.to_string())),
+            Err(pi) => return Err((format!("state-decode-panic|{}", pi.class()), pi.message)),
+        };
+        if st2 != st {
+            return Err(("state-roundtrip-differs".into(), format!("aggregator {i}")));
+        }
+        states.push(st2);
+        vshares.push(vs.get_encoded().unwrap());
+    }
+    // Every aggregator decodes every peer's verifier share with ITS OWN reloaded state.
+    let mut msg_bytes = None;
+    for st in &states {
+        let mut dec = vec![];
+        for vb in &vshares {
+            match catch(|| Prio3VerifierShare::<T::Field, 32>::get_decoded_with_param(st, vb)) {
+                Ok(Ok(v)) => dec.push(v),
+                Ok(Err(e)) => return Err(("verifier-share-decode-with-reloaded-state".into(), e.to_string())),
+                Err(pi) => return Err((format!("verifier-share-decode-panic|{}", pi.class()), pi.message)),
+            }
+        }
+        let msg = match catch(|| vdaf.verifier_shares_to_message(vctx, &(), dec)) {
+            Ok(Ok(m)) => m,
+            Ok(Err(e)) => return Err(("verifier_shares_to_message".into(), e.to_string())),
+            Err(pi) => return Err((format!("verifier_shares_to_message-panic|{}", pi.class()), pi.message)),
+        };
+        msg_bytes = Some(msg.get_encoded().unwrap());
+    }
+    let mb = msg_bytes.unwrap();
+    for st in states {
+        let msg = match catch(|| Prio3VerifierMessage::<32>::get_decoded_with_param(&st, &mb)) {
+            Ok(Ok(m)) => m,
+            Ok(Err(e)) => return Err(("verifier-message-decode-with-reloaded-state".into(), e.to_string())),
+            Err(pi) => return Err((format!("verifier-message-decode-panic|{}", pi.class()), pi.message)),
+        };
+        match catch(|| vdaf.verify_next(vctx, st, msg)) {
+            Ok(Ok(VerifyTransition::Finish(_))) => {}
+            Ok(Ok(_)) => return Err(("verify_next-continue".into(), "unexpected Continue".into())),
+            Ok(Err(e)) => return Err(("verify_next".into(), e.to_string())),
+            Err(pi) => return Err((format!("verify_next-panic|{}", pi.class()), pi.message)),
+        }
+    }
+    Ok(())
+}
+
 struct V01<'a> {
     rng: &'a mut Rng64,
     batch: usize,
@@ -122,6 +197,16 @@ impl Prio3Visitor for V01<'_> {
             }
             let psb = enc(&ps, &mut anomaly);
             let isb: Vec<Vec<u8>> = shares.iter().map(|s| enc(s, &mut anomaly)).collect();
+            // Aggregators may persist their verify state between verify_init and verify_next: run the
+            // same report once more with every verify state crossing its wire encoding as well.
+            if r % 3 == 0 {
+                if let Err(e) = verify_with_persisted_state(&vdaf, &key, &vctx, &nonce, &ps, &shares) {
+                    ctx.violation(format!("{sig_base}persisted-state|{}", e.0), "honest report failed when the verify states were encoded and decoded between verify_init and verify_next",
+                        json!({"config": desc, "measurement": p.meas_json(&m), "detail": e.1}));
+                } else {
+                    ctx.count("reports_verified_with_persisted_state");
+                }
+            }
             let out = verify_report_simple::<_, 32>(&vdaf, &key, &vctx, &(), &nonce, &psb, &isb, &mut no_tamper, &mut stats, &mut anomaly);
             ctx.eval();
             match out {
